@@ -60,7 +60,9 @@ impl Session {
         }
         let evv = Value::Object(ev);
         let _ = take_last_err();
+        watch(|| json!({"session_event": {"i": self.i, "op": op, "e": evv, "aval": self.vals.get(a), "bval": self.vals.get(b)}}).to_string());
         let r = exec_guarded(op, &va, &vb, &evv);
+        unwatch();
         if r.res["k"] == "unknown-op" {
             eprintln!("harness error: unknown op {}", op);
             std::process::exit(2);
